@@ -544,7 +544,7 @@ fn observe_root<F: Fl + 'static, const K: usize>(r: &mut Run<F, K>, buf: &dyn Dy
 // generators
 // ------------------------------------------------------------------------------------------------
 
-fn gen_color<F: Fl, const K: usize>(rng: &mut Rng, kind: Kind) -> [F; K] {
+pub(crate) fn gen_color<F: Fl, const K: usize>(rng: &mut Rng, kind: Kind) -> [F; K] {
     let r = kind.ranges();
     let mut a = [F::of(0.0); K];
     for j in 0..K { a[j] = if j < 3 { F::of(rng.edgy(r[j].0, r[j].1)) } else { F::of(rng.edgy(0.0, 1.0)) }; }
@@ -587,7 +587,7 @@ fn gen_history<F: Fl + 'static, const K: usize>(rng: &mut Rng, fam: &Fam<F, K>, 
     ops
 }
 
-fn emit<F: Fl + 'static, const K: usize>(out: &mut Out, fam: &Fam<F, K>, form: Form, u0: usize, cap_extra: usize, init: &[[F; K]], written: &[[F; K]], ops: &[Op]) {
+pub(crate) fn emit<F: Fl + 'static, const K: usize>(out: &mut Out, fam: &Fam<F, K>, form: Form, u0: usize, cap_extra: usize, init: &[[F; K]], written: &[[F; K]], ops: &[Op]) {
     let key = format!("{}:{}", form.tag(), fam.name);
     let res = std::panic::catch_unwind(std::panic::AssertUnwindSafe(|| run_history(fam, form, u0, cap_extra, init, written, ops)));
     match res {
@@ -613,7 +613,7 @@ fn emit<F: Fl + 'static, const K: usize>(out: &mut Out, fam: &Fam<F, K>, form: F
     }
 }
 
-fn run_family<F: Fl + 'static, const K: usize>(out: &mut Out, rng: &mut Rng, fam: &Fam<F, K>, n_random: usize, max_len: usize, max_ops: usize, max_chain: usize, all_triples: bool) {
+pub(crate) fn run_family<F: Fl + 'static, const K: usize>(out: &mut Out, rng: &mut Rng, fam: &Fam<F, K>, n_random: usize, max_len: usize, max_ops: usize, max_chain: usize, all_triples: bool) {
     let nt = fam.names.len();
     let forms = [Form::Single, Form::Slice,Form::Vec, Form::Boxed];
     if n_random != MIRI_RANDOM {
@@ -683,6 +683,8 @@ pub fn run(tier: &str, seed: u64, dir: &str) {
     run_family(&mut out, &mut rng, &f32x3b::fam(), nr, max_len, max_ops, max_chain, true);
     // histories in which a conversion (or the user's code) panics under `catch_unwind`: `c13_panic.rs`, model `InPlacePanic.lean`
     crate::c13_panic::run_panics(&mut out, &mut rng, tier);
+    // coverage audit (AUDIT_C13.md): more colour types / parameters / component types, long buffers, wide types, mixed forms, map_*_in_place
+    crate::c13_more::run_more(&mut out, &mut rng, tier);
     if thorough {
         // long buffers (the read/write loop of the in-place map over many elements), every form, two families
         let fam = f32x3::fam();
